@@ -197,7 +197,7 @@ def run(ctx):
     mid = cases[len(cases) // 2]
     ctx.sample({"text": show_bytes(mid["text"]), "ops": [o["op"] for o in mid["ops"]],
                 "expected_listing": [show_bytes(e["name"]) + "=" + show_bytes(e["val"]) for e in mid["steps"][-1]["listing"]]})
-    git_reads(ctx, cases, results, 1200 if not ctx.thorough else 8000)
+    git_reads(ctx, cases, results, 600 if not ctx.thorough else 8000)
 
     # binding B: TLC reads the serialised texts itself: a sample of the behaviours above ...
     ns = 700 if not ctx.thorough else 8000
